@@ -285,6 +285,7 @@ type reqState struct {
 	calls []int
 	obs   []obsEv
 	sync  func() // called before every placeholder access of a handler
+	ctx   context.Context // the batch context the handlers were given (last invocation)
 	bad   string // harness-level inconsistency (never expected)
 }
 
@@ -357,6 +358,7 @@ func (scriptHandler) HandleOperation(ctx context.Context, pl kmip.OperationPaylo
 		return nil, errors.New("harness: unknown payload")
 	}
 	it := &st.req.items[idx]
+	st.ctx = ctx
 	for _, a := range it.acts {
 		if st.sync != nil {
 			st.sync()
@@ -977,6 +979,7 @@ type placeResult struct {
 // runScenario runs the requests in the given mode and returns what each observed.
 //
 //	seq       one after the other, one connection context
+//	nest      one after the other, each inside the batch context of the previous one
 //	par       all at once from goroutines (groups of three share a connection context), yielding
 //	il:a.b.c  exactly one request runs at a time; the list says whose turn it is; a turn lasts from
 //	          one synchronisation point to the next (so it includes the library's own steps)
@@ -1002,6 +1005,18 @@ func runScenario(mode string, reqs []*bReq) []placeResult {
 		for i, r := range reqs {
 			_, st, p := runReal(c, r, nil)
 			finish(i, st, p)
+		}
+	case mode == "nest":
+		// like seq, but every request is given, as its parent, the batch context of the previous
+		// request (what a handler that forwards requests would do): the new request must still get
+		// a holder of its own.
+		parent := conn(0)
+		for i, r := range reqs {
+			_, st, p := runReal(parent, r, nil)
+			finish(i, st, p)
+			if st.ctx != nil {
+				parent = st.ctx
+			}
 		}
 	case mode == "par":
 		var wg sync.WaitGroup
@@ -1233,6 +1248,7 @@ func runPlace(ctx *Ctx) {
 			items := append(append([]bItem{}, w...), pItem("ok", R))
 			q := placeReq(opt, items...)
 			placeCase(ctx, "seq", []*bReq{poison, q, q}, "exhaustive-seq")
+			placeCase(ctx, "nest", []*bReq{poison, q, q}, "exhaustive-nest")
 			if (wi+int(opt))%ctx.N(7, 2) == 0 {
 				placeCase(ctx, "par", []*bReq{poison, q, poison, q}, "exhaustive-par")
 			}
@@ -1309,7 +1325,7 @@ func runPlace(ctx *Ctx) {
 		case 0:
 			placeCase(ctx, "par", reqs, "random")
 		case 1:
-			placeCase(ctx, "seq", reqs, "random")
+			placeCase(ctx, rng.Pick(r, []string{"seq", "nest"}), reqs, "random")
 		default:
 			var s []int
 			for j, q := range reqs {
@@ -1337,7 +1353,7 @@ func init() {
 	})
 	register(&Engine{
 		Name: "place",
-		Rule: "scenarios of several requests on one executor whose handlers Set/Read/Clear the ID placeholder: sequential on one connection context, concurrent from goroutines, and controlled interleavings (one request runs at a time; ALL merges of pairs (thorough: triples) of small requests); every access sequence over batches of <= 2 (thorough 3) items x outcome {ok, error, panic} x {unset, Stop} after/beside a request that leaves a value behind; distinct = distinct scenario line; nontrivial = some handler read the placeholder",
+		Rule: "scenarios of several requests on one executor whose handlers Set/Read/Clear the ID placeholder: sequential on one connection context, sequential with each request nested in the previous request's batch context, concurrent from goroutines, and controlled interleavings (one request runs at a time; ALL merges of pairs (thorough: triples) of small requests); every access sequence over batches of <= 2 (thorough 3) items x outcome {ok, error, panic} x {unset, Stop} after/beside a request that leaves a value behind; distinct = distinct scenario line; nontrivial = some handler read the placeholder",
 		Run:  runPlace,
 	})
 }
